@@ -679,7 +679,7 @@ func (w *world) txLies(t *rapid.T, tr txRef, label string) []lie {
 	on := func(name string, f func(r *ctypes.ResultTx) bool) lie {
 		return lie{name, func(res interface{}) bool { return f(res.(*ctypes.ResultTx)) }}
 	}
-	return []lie{
+	lies := []lie{
 		on("hash.flip", func(r *ctypes.ResultTx) bool { r.Hash = flip(r.Hash); return true }),
 		on("hash.other", func(r *ctypes.ResultTx) bool { r.Hash = types.Tx(other.Tx).Hash(); return hasOther }),
 		on("height.other", func(r *ctypes.ResultTx) bool { r.Height = otherH; return otherH != tr.Height }),
@@ -772,6 +772,24 @@ func (w *world) txLies(t *rapid.T, tr txRef, label string) []lie {
 			return true
 		}),
 	}
+	// coordinated position lies: the answer's Index AND the proof's Index (and Total) are changed together, over every
+	// position 0..N+1 and every total N-1..N+2 of a block of N txs, the rest of the proof genuine. Whatever the
+	// verifying client relays must still be a position the audit path really leads to (reference Merkle, ref_test.go).
+	n := int64(len(w.chain.Blocks[tr.Height].Txs))
+	for k := int64(0); k <= n+1; k++ {
+		for dt := int64(-1); dt <= 2; dt++ {
+			k, m := k, n+dt
+			if m <= 0 || (k == int64(tr.Index) && m == n) {
+				continue
+			}
+			lies = append(lies, on(fmt.Sprintf("coord.index=%d,total=N%+d", k, dt), func(r *ctypes.ResultTx) bool {
+				r.Index = uint32(k)
+				r.Proof.Proof.Index, r.Proof.Proof.Total = k, m
+				return true
+			}))
+		}
+	}
+	return lies
 }
 
 func (r *lieRun) judgeTx(want []byte) func(ret interface{}) verdict {
@@ -788,6 +806,11 @@ func (r *lieRun) txs() {
 		return
 	}
 	tr := rapid.SampledFrom(w.txs).Draw(t, "tx.target")
+	if rapid.Bool().Draw(t, "tx.target.last") { // the last leaf of a tree is the boundary case of every index check
+		txs := w.chain.Blocks[tr.Height].Txs
+		tr = txRef{Height: tr.Height, Index: len(txs) - 1, Tx: txs[len(txs)-1]}
+	}
+	lib.Class(testF, fmt.Sprintf("tx-target:last=%v,block-txs=%d", tr.Index == len(w.chain.Blocks[tr.Height].Txs)-1, len(w.chain.Blocks[tr.Height].Txs)))
 	c := w.drawVerifier(t, r.liar, "tx.v")
 	hash := types.Tx(tr.Tx).Hash()
 	hon, _ := newLiar(w.core).Tx(bg, hash, true)
@@ -807,6 +830,11 @@ func (r *lieRun) txs() {
 	}
 	honest = jsonFull(hs)
 	j := rapid.IntRange(0, len(hs.Txs)-1).Draw(t, "txsearch.elem")
+	if rapid.Bool().Draw(t, "txsearch.elem.last") { // move to the last tx of that element's block
+		for j+1 < len(hs.Txs) && hs.Txs[j+1].Height == hs.Txs[j].Height {
+			j++
+		}
+	}
 	elem := txRef{Height: hs.Txs[j].Height, Index: int(hs.Txs[j].Index), Tx: hs.Txs[j].Tx}
 	var lies []lie
 	for _, l := range w.txLies(t, elem, "txsearch") {
